@@ -9,6 +9,9 @@ first monic polynomial of degree d (integer order) that survives trial division.
 Integer order: the polynomial with coefficients c_i has code sum c_i p^i.
 """
 
+import json
+import signal
+
 from mc.core import Part
 from mc.ref import polys as R
 
@@ -53,6 +56,77 @@ MANIFEST = dict(
          'run); finite declared domain only. Known deviation classes of the generic next_irreducible get their own keys '
          '(skips-x, skips-nonmonic, find_irreducible degree 1) with a fallback law inside the class, so any other '
          'deviation is reported as :wrong.')
+
+
+# -- harness helpers: deterministic examples, hang guard -----------------------------------
+
+class CPart(Part):
+    """Part that also remembers, per violation key, the smallest failing example (so that the reported
+    example does not depend on the order in which worker processes finish)."""
+
+    def violation(self, key, what, detail):
+        super().violation(key, what, detail)
+        size = sum(len(v) for v in detail.values() if isinstance(v, list)) + abs(detail.get('n', 0) if isinstance(detail.get('n', 0), int) else 0)
+        rank = [detail.get('p', 0), size, json.dumps(detail, sort_keys=True, default=str)]
+        ex = self.notes.setdefault('examples', [])
+        for e in ex:
+            if e[0] == key:
+                if rank < e[1]:
+                    e[1:] = [rank, what, detail]
+                return
+        ex.append([key, rank, what, detail])
+
+
+def coverage_extra(tier, seed, total):
+    best = {}
+    for key, rank, what, detail in total.notes.pop('examples', []):
+        if key not in best or rank < best[key][0]:
+            best[key] = (rank, what, detail)
+    for v in total.violations:
+        if v['key'] in best:
+            _, v['what'], v['detail'] = best[v['key']]
+    return {}
+
+
+class Hang(Exception):
+    """Raised inside a call of the code under test that used more than one full watchdog period of CPU time."""
+
+
+class Abort(BaseException):
+    pass
+
+
+_wd = {'id': 0, 'on': False, 'seen': -1, 'hangs': 0}
+WD_PERIOD = 4.0     # seconds of CPU time of this process; a single polynomial operation takes microseconds
+
+
+def _on_tick(signum, frame):
+    if _wd['on'] and _wd['id'] == _wd['seen']:
+        _wd['hangs'] += 1
+        _wd['seen'] = -1
+        if _wd['hangs'] > 3:
+            raise Abort()
+        raise Hang(f'call still running after {WD_PERIOD:.0f}-{2 * WD_PERIOD:.0f} s of CPU time')
+    _wd['seen'] = _wd['id'] if _wd['on'] else -1
+
+
+def watchdog(on):
+    if on:
+        _wd.update(id=0, on=False, seen=-1, hangs=0)
+        signal.signal(signal.SIGVTALRM, _on_tick)
+        signal.setitimer(signal.ITIMER_VIRTUAL, WD_PERIOD, WD_PERIOD)
+    else:
+        signal.setitimer(signal.ITIMER_VIRTUAL, 0)
+
+
+def guarded(f):
+    """Run one call of the code under test under the hang guard."""
+    _wd['id'] += 1
+    _wd['on'] = True
+    try:
+        return f()
+    finally:
+        _wd['on'] = False
 
 
 # -- classes under test --------------------------------------------------------------------
@@ -142,7 +216,7 @@ def check_is_irreducible(part, cls, kind, p, n, T, forms=('poly', 'int', 'list')
         arg = cls(list(c)) if form == 'poly' else n if form == 'int' else list(c)
         case = dict(op='is_irreducible', kind=kind, p=p, n=n, form=form)
         try:
-            got = cls.is_irreducible(arg)
+            got = guarded(lambda: cls.is_irreducible(arg))
         except Exception as exc:
             part.violation('C24:is_irreducible:exception', f'{type(exc).__name__}: {exc} for {R.terms(c)} over GF({p}) {case}', case)
             continue
@@ -160,7 +234,7 @@ def check_next(part, cls, kind, p, n, D, nxt, fb, form='poly'):
     arg = cls(list(c)) if form == 'poly' else n
     case = dict(op='next_irreducible', kind=kind, p=p, n=n, D=D, form=form)
     try:
-        res = cls.next_irreducible(arg)
+        res = guarded(lambda: cls.next_irreducible(arg))
     except Exception as exc:
         part.violation('C24:next_irreducible:exception', f'{type(exc).__name__}: {exc} for a={R.terms(c)} over GF({p}) {case}', case)
         return
@@ -186,7 +260,7 @@ def check_gf(part, cls, kind, p, n, T):
     case = dict(op='GF', kind=kind, p=p, n=n)
     part.case(nontrivial=len(c) >= 2)
     try:
-        F = finfields.GF(a)
+        F = guarded(lambda: finfields.GF(a))
     except Exception as exc:
         part.outcomes.add(('GF', kind, p, type(exc).__name__))
         part.note('gf_rejections_by_exception', {type(exc).__name__: 1})
@@ -221,7 +295,7 @@ def check_find(part, p, d):
     else:
         want = smallest_monic_irreducible(p, d)
     try:
-        res = finfields.find_irreducible(p, d)
+        res = guarded(lambda: finfields.find_irreducible(p, d))
     except Exception as exc:
         part.violation('C24:find_irreducible:exception', f'{type(exc).__name__}: {exc} {case}', case)
         return
@@ -275,7 +349,18 @@ def jobs(tier, seed):
 
 
 def run_job(job):
-    part = Part()
+    part = CPart()
+    watchdog(True)
+    try:
+        _run_job(part, job)
+    except Abort:
+        part.caps.append('job aborted: more than 3 calls of the code under test hung')
+    finally:
+        watchdog(False)
+    return part
+
+
+def _run_job(part, job):
     if job['what'] == 'find':
         for p, d in job['cases']:
             check_find(part, p, d)
@@ -298,7 +383,19 @@ def run_job(job):
 
 
 def replay(case):
-    part = Part()
+    part = CPart()
+    watchdog(True)
+    try:
+        _replay(part, case)
+    except Abort:
+        pass
+    finally:
+        watchdog(False)
+    part.notes.pop('examples', None)
+    return part
+
+
+def _replay(part, case):
     op = case['op']
     if op == 'find_irreducible':
         check_find(part, case['p'], case['d'])
